@@ -30,7 +30,9 @@ def real(x):
 
 def _lift1(ex, f, v, kind='real'):
     if isinstance(v, SBag):
-        return SBag(v.shape, v.pred, lambda p, g=v.val: f(g(p)), kind)
+        out = SBag(v.shape, v.pred, lambda p, g=v.val: f(g(p)), kind)
+        out.mask_id = getattr(v, 'mask_id', None)
+        return out
     if isinstance(v, SArr):
         return SArr(v.shape, lambda idx, g=snap(v): f(g(idx)), kind)
     if isinstance(v, SSeq):
@@ -430,6 +432,13 @@ def np_copy(ex, args, kw, st):
     return v
 
 
+def np_atleast_2d(ex, args, kw, st):
+    v = args[0]
+    if isinstance(v, SArr) and v.ndim == 2:
+        return v          # numpy returns the array itself (same memory) for ndim >= 2
+    raise Unsupported('np.atleast_2d of a non-2-D value')
+
+
 class SAgg:
     """Uninterpreted reduction over an index box: kind(SUM|COUNT) of val(p) for p in box(shape)
     with pred(p).  Two aggregates are related only through their pointwise characterisation
@@ -708,6 +717,15 @@ def cl_forall(ex, args, kw, st):
     return z3.ForAll(vs, f)
 
 
+def cl_forall_real(ex, args, kw, st):
+    """forall_real(lambda a, b: body): unbounded quantifier over reals (mathematical lemmas about
+    uninterpreted functions, e.g. monotonicity of erf)."""
+    fn = args[0]
+    n = len(getattr(fn, 'argnames', None) or [0])
+    vs = [z3.Real(f'bv!{next(_bv)}') for _ in range(n)]
+    return z3.ForAll(vs, to_bool(fn.fn(*vs)))
+
+
 def cl_isfinite_at(ex, args, kw, st):
     """isfinite_at(arr, i, j): the per-element finiteness predicate of a symbolic input array."""
     a = args[0]
@@ -768,9 +786,9 @@ TABLE = {
     'np.count_nonzero': np_count_nonzero, 'np.sum': np_sum, 'np.nansum': np_sum, 'np.any': np_any, 'np.all': np_all,
     'np.diff': np_diff, 'np.argmax': np_argmax_first_true,
     'PchipInterpolator': p_interp('PchipInterpolator'), 'np.ndim': np_ndim,
-    'np.clip': np_clip, 'spline': cl_uf('spline'),
+    'forall_real': cl_forall_real, 'np.atleast_2d': np_atleast_2d, 'np.clip': np_clip, 'spline': cl_uf('spline'),
     'np.deg2rad': p_uf1('deg2rad'), 'deg2rad_': cl_uf('deg2rad'), 'exp_': cl_uf('exp'),
-    'erf_': cl_uf('erf'), 'sin_': cl_uf('sin'), 'cos_': cl_uf('cos'), 'sqrt_': cl_uf('sqrt'),
+    'erf_': cl_uf('erf'), 'sin_': cl_uf('sin'), 'cos_': cl_uf('cos'), 'sqrt_': cl_uf('sqrt'), 'asin_': cl_uf('asin'),
     'pi_': None,
     'np.float32': np_identity, 'np.float64': np_identity,
     'warnings.warn': p_warn, 'warnings.simplefilter': p_warn, 'warnings.filterwarnings': p_warn,
@@ -794,6 +812,14 @@ def _pi(ex, args, kw, st):
 
 
 TABLE['pi_'] = _pi
+
+
+def _record(ex, args, kw, st):
+    """record_('Class', field=value, ...): a record value in contract text (no constructor run)."""
+    return SObj(args[0], dict(kw))
+
+
+TABLE['record_'] = _record
 
 
 def lookup(name):
